@@ -9,6 +9,10 @@ type Filter []syscall.SockFilter
 // SockFprog converts Filter to SockFprog for seccomp syscall
 func (f Filter) SockFprog() *syscall.SockFprog {
 	b := []syscall.SockFilter(f)
+	// no filter given: no filter is loaded (instead of indexing an empty slice)
+	if len(b) == 0 {
+		return nil
+	}
 	return &syscall.SockFprog{
 		Len:    uint16(len(b)),
 		Filter: &b[0],
